@@ -343,6 +343,47 @@ pub fn run(rep: &'static Report) {
             }
         }
     }
+    // rejecting trailing data must not buffer it: valid 1-chunk stream + N bytes of garbage
+    {
+        let tkey = derive32(1, "c11-tiny");
+        let body = r::write_chunks(&tkey, &[], &(0..1000).map(pbyte).collect::<Vec<u8>>(), &[1000]);
+        let mut peaks = vec![];
+        for n in [1usize, 1 << 20, rep.tier.pick(16 << 20, 128 << 20)] {
+            rep.eval(1);
+            struct Tail<'a> {
+                head: &'a [u8],
+                pos: usize,
+                extra: usize,
+            }
+            impl<'a> Read for Tail<'a> {
+                fn read(&mut self, buf: &mut [u8]) -> std::io::Result<usize> {
+                    let total = self.head.len() + self.extra;
+                    let k = buf.len().min(total - self.pos);
+                    for (i, b) in buf[..k].iter_mut().enumerate() {
+                        let p = self.pos + i;
+                        *b = if p < self.head.len() { self.head[p] } else { 0x77 };
+                    }
+                    self.pos += k;
+                    Ok(k)
+                }
+            }
+            let mut src = Tail { head: &body, pos: 0, extra: n };
+            let mut sink = std::io::sink();
+            let sub = Subject::TinyDec { key: hx(&tkey), aad: String::new(), cs: CS as u32 };
+            let (res, m) = mon::measured(|| run_rw(&sub, &mut src, &mut sink));
+            if res.is_ok() {
+                rep.violation("trailing/accepted", json!({"kind":"trailing","n":n}), format!("stream followed by {} bytes of trailing data accepted", n));
+            }
+            peaks.push((n, m.peak_above_mark));
+            rep.nontrivial(format!("trailing-{}", n).as_bytes());
+        }
+        let lo = peaks.iter().map(|p| p.1).min().unwrap();
+        let hi = peaks.iter().map(|p| p.1).max().unwrap();
+        if hi - lo > 4096 {
+            rep.violation("mem/grows-with-trailing-data", json!({"kind":"trailing","peaks":peaks.iter().map(|p| json!([p.0,p.1])).collect::<Vec<_>>()}), format!("peak heap while rejecting trailing data depends on its amount: {:?}", peaks));
+        }
+        rep.extra("peak_dec_trailing_data", json!(peaks.iter().map(|p| json!([p.0,p.1])).collect::<Vec<_>>()));
+    }
     // oracle (ii): each chunk written before more than two further chunks of input were consumed
     for p in &points {
         if p.lag_chunks > 2 {
@@ -383,18 +424,37 @@ struct CliRun {
 
 /// Feed `size` bytes from `gen` to the CLI's stdin (first a short write, then 64 KiB writes), withholding
 /// the last MiB until output has caught up; stdout is drained and counted; returns peak RSS from wait4.
-fn cli_stream(args: &[&str], env: &[(&str, &str)], cwd: &std::path::Path, input: Box<dyn FnMut(&mut [u8]) -> usize + Send>, size: usize) -> Result<CliRun, String> {
+fn cli_stream(args: &[&str], env: &[(&str, &str)], cwd: &std::path::Path, input: Box<dyn FnMut(&mut [u8]) -> usize + Send>, size: usize, via_fifo: bool) -> Result<CliRun, String> {
     use std::process::{Command, Stdio};
     use std::sync::atomic::{AtomicUsize, Ordering};
     use std::sync::Arc;
     let mut c = Command::new(KESTREL);
-    c.args(args).env_clear().current_dir(cwd).stdin(Stdio::piped()).stdout(Stdio::piped()).stderr(Stdio::null());
+    c.args(args).env_clear().current_dir(cwd).stdout(Stdio::piped()).stderr(Stdio::null());
+    let fifo_path = cwd.join("in.fifo");
+    if via_fifo {
+        // the input is a named pipe given as the FILE argument
+        let cp = std::ffi::CString::new(fifo_path.to_str().unwrap()).unwrap();
+        if unsafe { libc::mkfifo(cp.as_ptr(), 0o600) } != 0 {
+            return Err("mkfifo failed".into());
+        }
+        c.arg("in.fifo").stdin(Stdio::null());
+    } else {
+        c.stdin(Stdio::piped());
+    }
     for (k, v) in env {
         c.env(k, v);
     }
     let mut child = c.spawn().map_err(|e| format!("spawn: {}", e))?;
     let pid = child.id() as i32;
-    let mut si = child.stdin.take().unwrap();
+    let mut si: Box<dyn Write + Send> = if via_fifo {
+        // opening the write end blocks until the CLI opens the pipe for reading
+        match std::fs::OpenOptions::new().write(true).open(&fifo_path) {
+            Ok(f) => Box::new(f),
+            Err(e) => return Err(format!("open fifo: {}", e)),
+        }
+    } else {
+        Box::new(child.stdin.take().unwrap())
+    };
     let mut so = child.stdout.take().unwrap();
     let outn = Arc::new(AtomicUsize::new(0));
     let o2 = outn.clone();
@@ -476,17 +536,19 @@ fn cli_level(rep: &Report) {
         let mut jobs = vec![];
         for (name, args, pw) in &cmds {
             for &sz in &sizes {
-                jobs.push((name.to_string(), args.clone(), pw.to_string(), sz));
+                for via_fifo in [false, true] {
+                    jobs.push((format!("{}{}", name, if via_fifo { "-fifo-arg" } else { "" }), args.clone(), pw.to_string(), sz, via_fifo));
+                }
             }
         }
         jobs.par_iter()
-            .map(|(name, args, pw, sz)| {
+            .map(|(name, args, pw, sz, via_fifo)| {
                 let sc = Scratch::new();
                 sc.write("kr.txt", kr.as_bytes());
                 let sz = *sz;
                 let (input, insize): (Box<dyn FnMut(&mut [u8]) -> usize + Send>, usize) = if name.contains("decrypt") {
                     // lazily generated conforming ciphertext
-                    let (header, key, aad) = if name == "decrypt" {
+                    let (header, key, aad) = if name.starts_with("decrypt") {
                         let pay = derive32(seed, "c11-cli-pay");
                         let m = r::noise_x_write(&r::XRoles::honest(&r::KEY_MAGIC, &alice.sk, &bob.pk, &derive32(seed, "c11-cli-e")), &pay).unwrap();
                         let mut h = r::KEY_MAGIC.to_vec();
@@ -523,12 +585,15 @@ fn cli_level(rep: &Report) {
                         sz,
                     )
                 };
-                let r = cli_stream(args, &[("KESTREL_PASSWORD", pw)], &sc.0, input, insize);
+                let r = cli_stream(args, &[("KESTREL_PASSWORD", pw)], &sc.0, input, insize, *via_fifo);
                 (name.clone(), sz, r)
             })
             .collect()
     };
-    for (name, _, _) in &cmds {
+    let mut names: Vec<String> = results.iter().map(|r| r.0.clone()).collect();
+    names.sort();
+    names.dedup();
+    for name in &names {
         let grp: Vec<(&usize, &CliRun)> = results.iter().filter(|r| &r.0 == name).filter_map(|r| r.2.as_ref().ok().map(|x| (&r.1, x))).collect();
         for r in results.iter().filter(|r| &r.0 == name) {
             rep.eval(1);
